@@ -24,6 +24,9 @@ THEOREMS = [
     "Mesa.Legacy.C08_place_appends",
     "Mesa.Legacy.C08_move_contents",
     "Mesa.Legacy.C08_swap_exchanges",
+    "Mesa.Legacy.C08_isCellEmpty_any_integers",
+    "Mesa.Legacy.C08_slices_select_in_range_indices",
+    "Mesa.Legacy.C08_indexing_shows_cells",
     "Mesa.Legacy.C08_network_views_agree_all_histories",
     "Mesa.Legacy.C08_network_step_keeps_agreement",
     "Mesa.Legacy.C08_network_pos_is_the_one_node",
@@ -49,14 +52,18 @@ TRUSTED = [
     "cutoff_empties = 7.953 * num_cells ** 0.384 (float formula; its floor is read from the running grid and sent in the scenario header)",
     "random.Random.shuffle / choice / randrange of CPython 3.12 draw through _randbelow as modelled (Fisher-Yates from the top, choice = seq[_randbelow(len)])",
     "networkx node bookkeeping: G.nodes[v] raises KeyError exactly for a node that is not in the graph; iteration over G is in insertion order (the protocol builds range(n))",
-    "place_agent / is_cell_empty are only called with in-grid coordinates (C08's quantifier); Python's negative-index aliasing outside the grid is not modelled",
+    "place_agent is only called with in-grid coordinates (C08's quantifier); its negative-index aliasing is not modelled (the read paths' is)",
+    "CPython list indexing / slicing semantics (modelled: pyIndex, sliceIndices = PySlice_AdjustIndices + range; compared exhaustively on small lists on every run)",
 ]
 ASSUMPTIONS = ["place_agent is called for an unplaced agent at in-grid coordinates (the property's quantifier)",
                "hex variants: the mutating calls are inherited unchanged from SingleGrid / MultiGrid (checked by running all four classes)"]
 RULE = ("random histories on all four grid classes: sizes 1x1..5x5 (62%), tiny grids that fill up (20%), 6x6..8x8 where move_to_empty samples "
         "(18%); torus on/off; with/without property layers; 1-7 agents; 5-40 (thorough: 60) ops from {place, remove, move (in-grid, near and far "
         "out-of-grid targets), swap, move_to_empty (scripted draws), move_agent_to_one_of (random/closest/invalid, duplicates, out-of-grid "
-        "offers, empty list with all handle_empty modes), empties, exists_empty_cells, is_cell_empty, empty_mask, agents, iteration, indexing}; "
+        "offers, empty list with all handle_empty modes), empties, exists_empty_cells, is_cell_empty, empty_mask, agents, iteration, indexing "
+        "(grid[x, y], and 5% of the reads: is_cell_empty / grid[x] with ints in and beyond -n..n-1, grid[ix, iy] with slices whose bounds exceed the "
+        "size and steps in {None, 1, 2, 3, -1, -2, 0}, grid[(x1, y1), ...], torus_adj, out_of_bounds)}; exhaustive index/slice enumeration on "
+        "three small grids first on every run (builtin_corpus); "
         "30% of histories read empties only in their second half; 15% of histories are from the rejecting-call stream (generate_rejecting: most agents placed first, then half of the calls are chosen to be rejected: out-of-grid / occupied targets, unplaced agents, full grid, invalid selection, exhausted generator); a full dump (pos, contents, mask, is_cell_empty) follows every mutating call; 4% of the histories additionally place already-placed agents (outside the quantifier: model-vs-code tie only, no oracle). "
         "12% of all scenarios are NetworkGrid-as-a-space histories (random simple graphs with 1-7 nodes, 1-6 agents, place / move / remove with 12% "
         "(rejecting stream 45%) of the targets missing nodes, unplaced agents moved / removed, moves onto the own node, is_cell_empty / "
@@ -82,6 +89,10 @@ def generate_rejecting(rng, tier, count):
             yield L.gen_c08_net(rng, tier, rejecting=True)
         else:
             yield L.gen_c08(rng, tier, rejecting=True)
+
+
+def builtin_corpus():
+    return L.exhaustive_index_c08()
 
 
 run_impl = L.run_impl
